@@ -207,3 +207,29 @@ Theorem tie_detached_context :
   run_dc fn_detachedContext_Err [] = Some [VNil] /\
   run_dc fn_detachedContext_Value [VPtr true "key"] = Some [VRec "parent's value for" [("key", VPtr true "key")]].
 Proof. repeat split; vm_compute; reflexivity. Qed.
+
+(* ---- waitForValue: [debug log], then the receive from the key lock's channel, and only then the published value
+   and error are read (before the receive they are not yet published) ---- *)
+Definition wv_prims : prims := fun f args s =>
+  match f, args with
+  | "f.logDebug", _ :: VStr m :: _ => Some (VNil, emit "log" [VStr m] s)
+  | "<-", [VRef "keyLock.lock"] =>
+      Some (VNil, emit "receive from keyLock.lock" []
+                       (bind "keyLock.val" (VStr "published value") (bind "keyLock.err" (VStr "published error") s)))
+  | _, _ => None
+  end.
+
+Definition run_wait (f : gfunc) (debug : bool) : option (list effect * list value) :=
+  run wv_prims no_fcmp no_loop (fun vs s => Some (eff s, vs)) (fun _ => None) f
+      [VPtr true "f"; VPtr true "ctx"; VPtr true "key"; VPtr true "keyLock"]
+      [("f.logDebug", VPtr debug "logDebug"); ("f.config.Name", VStr "name");
+       ("keyLock.val", VStr "NOT YET PUBLISHED"); ("keyLock.err", VStr "NOT YET PUBLISHED")] (fun _ => None).
+
+Theorem tie_wait_for_value : forall debug,
+  run_wait fn_Failover_waitForValue debug =
+    Some ((if debug then [("log", [VStr "waiting for cache value"])] else []) ++ [("receive from keyLock.lock", [])],
+          [VStr "published value"; VStr "published error"])%list /\
+  run_wait fn_FailoverOf_waitForValue debug =
+    Some ((if debug then [("log", [VStr "waiting for cache value"])] else []) ++ [("receive from keyLock.lock", [])],
+          [VStr "published value"; VStr "published error"])%list.
+Proof. intros [|]; split; vm_compute; reflexivity. Qed.
